@@ -509,3 +509,25 @@ Definition probe_ok (wfail canary : bool) : bool := wfail && negb canary.
 
 Definition probe_agrees (a : after) (wfail canary : bool) : bool :=
   Bool.eqb wfail (a_client_closed a) && (negb canary || a_parses_more a).
+
+(* ------------------------------------------------------------------ *)
+(* CONNECT through a downstream proxy: its answer (connect, 608-650)    *)
+(* ------------------------------------------------------------------ *)
+
+Definition is_2xx (st : N) : bool := N.eqb (N.div st 100) 2.
+
+(* which answers make connect() drop the response body and treat everything
+   behind the head (also what was already read) as tunnel payload; [any2xx] is
+   the shape of the test in the source (Gen_Ret.downstream_any_2xx) *)
+Definition downstream_is_tunnel (any2xx : bool) (st : N) : bool :=
+  if any2xx then is_2xx st else N.eqb st 200.
+
+(* what the client is told: the downstream proxy's status, as is *)
+Record down := mkDown { d_status : N; d_tunnel : bool }.
+
+Definition connect_downstream (st : N) : down :=
+  mkDown st (downstream_is_tunnel downstream_any_2xx st).
+
+(* a refusal (non-2xx) is relayed: same status, its whole body, then the end *)
+Definition down_ok (sent got body_sent body_got : N) (body_prefix eos : bool) : bool :=
+  N.eqb sent got && N.eqb body_sent body_got && body_prefix && eos.
